@@ -29,6 +29,42 @@ func (t *taintSet) isTainted(v ssa.Value) bool {
 	return false
 }
 
+func (t *taintSet) isShapeTainted(v ssa.Value) bool {
+	for _, g := range t.gs {
+		if g.isShapeTainted(v) {
+			return true
+		}
+	}
+	return false
+}
+
+func (t *taintSet) isDirect(v ssa.Value) bool {
+	for _, g := range t.gs {
+		if g.isDirect(v) {
+			return true
+		}
+	}
+	return false
+}
+
+func (t *taintSet) directTrail(v ssa.Value, max int) []string {
+	for _, g := range t.gs {
+		if tr := g.directTrail(v, max); tr != nil {
+			return tr
+		}
+	}
+	return nil
+}
+
+func (t *taintSet) shapeTrail(v ssa.Value, max int) []string {
+	for _, g := range t.gs {
+		if g.isShapeTainted(v) {
+			return g.shapeTrail(v, max)
+		}
+	}
+	return nil
+}
+
 func (t *taintSet) taintTrail(v ssa.Value, max int) []string {
 	for _, g := range t.gs {
 		if g.isTainted(v) {
@@ -261,6 +297,10 @@ func (e *e3) classC(rule string, fns []*ssa.Function) {
 				e.r.OutOfScope(rule, shortFn(fn), construct, pos, "no controlling condition depends on request data")
 				continue
 			}
+			if why, ok := reviewedException("E3-C", shortFn(fn), construct); ok {
+				e.r.Exception(rule, shortFn(fn), construct, pos, why)
+				continue
+			}
 			// proven unreachable by ranges? every tainted controlling condition must be possible…
 			if e.unreachableByRanges(b) {
 				e.r.Discharge(rule, shortFn(fn), construct, pos, "block unreachable: controlling conditions contradict range facts")
@@ -293,6 +333,14 @@ func (e *e3) unreachableByRanges(b *ssa.BasicBlock) bool {
 		if !ok {
 			continue
 		}
+		// err != nil where err is the error result of a call documented never to fail
+		if ex, ok := bo.X.(*ssa.Extract); ok && isNilConst(bo.Y) {
+			if call, ok := ex.Tuple.(*ssa.Call); ok && infallibleWrite(call) && isErrorType(ex.Type()) {
+				if (bo.Op == token.NEQ && c.Pos) || (bo.Op == token.EQL && !c.Pos) {
+					return true
+				}
+			}
+		}
 		if tb, ok := bo.X.Type().Underlying().(*types.Basic); !ok || tb.Info()&types.IsInteger == 0 {
 			continue
 		}
@@ -305,6 +353,10 @@ func (e *e3) unreachableByRanges(b *ssa.BasicBlock) bool {
 		switch op {
 		case token.EQL:
 			if x.hi < y.lo || x.lo > y.hi {
+				return true
+			}
+		case token.NEQ:
+			if x.lo == x.hi && y.lo == y.hi && x.lo == y.lo && x.lo != negInf && x.lo != posInf {
 				return true
 			}
 		case token.LSS:
@@ -559,39 +611,75 @@ func (e *e3) globalRegexpPattern(gl *ssa.Global) (string, bool) {
 	return pat, true
 }
 
-// lenLowerBound returns a proven lower bound for len(s) at block `at`.
+// lenLowerBound returns a proven lower bound for len(s) at block `at`:
+// the minimum over all feasible path condition sets.
 func (e *e3) lenLowerBound(s ssa.Value, at *ssa.BasicBlock) (int64, string) {
+	f := factsOf(at.Parent())
+	best := int64(-1)
+	why := ""
+	for _, set := range f.condSets(at) {
+		if !e.rg.feasible(set, 0) {
+			continue
+		}
+		lb, w := e.lenLowerBoundIn(s, at, set)
+		if best < 0 || lb < best {
+			best, why = lb, w
+		}
+	}
+	if best < 0 {
+		return 0, "no feasible path"
+	}
+	return best, why
+}
+
+func (e *e3) lenLowerBoundIn(s ssa.Value, at *ssa.BasicBlock, conds []cond) (int64, string) {
 	best := int64(0)
 	why := ""
 	if r, ok := e.rg.lenOf(s, at, 0); ok && r.lo > best {
 		best, why = r.lo, r.why
 	}
+	exact := int64(-1) // length is 0 or exactly this (regexp submatch contract)
 	if c, ok := s.(*ssa.Call); ok {
 		if n, ok := e.submatchLen(c); ok {
-			// nil or exactly n: a dominating nil test is needed
-			if e.provedNonNilSlice(s, at) && int64(n) > best {
-				best, why = int64(n), fmt.Sprintf("FindStringSubmatch on a constant pattern returns nil or %d elements; nil excluded by guard", n)
+			exact = int64(n)
+		}
+	}
+	// s = x[k:] : len(s) >= lb(x) - k
+	if sl, ok := s.(*ssa.Slice); ok && sl.High == nil && sl.Low != nil {
+		if k, ok := constInt(sl.Low); ok {
+			if lb, w := e.lenLowerBoundIn(sl.X, at, conds); lb-k > best {
+				best, why = lb-k, w
 			}
 		}
 	}
-	// dominating conditions on len(s) or on string equality / prefix
+	if n, ok := e.elemLenContract(s); ok && n > best {
+		best, why = n, "elements of Find*Index results are index pairs"
+	}
 	key := exprKey(s)
-	f := factsOf(at.Parent())
-	for _, c := range f.dominatingConds(at) {
+	for _, c := range conds {
 		switch x := c.V.(type) {
 		case *ssa.BinOp:
-			// len(s) OP const
 			lr := e.lenCond(x, c.Pos, s, key)
 			if lr > best {
 				best, why = lr, "guard at "+e.p.pos(x.Pos())
 			}
-			// s == "const"
-			if c.Pos && x.Op == token.EQL || !c.Pos && x.Op == token.NEQ {
-				if sameOrKey(x.X, s, key) {
-					if str, ok := constString(x.Y); ok && int64(len(str)) > best {
-						best, why = int64(len(str)), "equal to constant string at "+e.p.pos(x.Pos())
-					}
+			eq := c.Pos && x.Op == token.EQL || !c.Pos && x.Op == token.NEQ
+			ne := c.Pos && x.Op == token.NEQ || !c.Pos && x.Op == token.EQL
+			if eq && sameOrKey(x.X, s, key) {
+				if str, ok := constString(x.Y); ok && int64(len(str)) > best {
+					best, why = int64(len(str)), "equal to constant string at "+e.p.pos(x.Pos())
 				}
+			}
+			if ne && sameOrKey(x.X, s, key) {
+				if str, ok := constString(x.Y); ok && str == "" && best < 1 {
+					best, why = 1, "non-empty string guard at "+e.p.pos(x.Pos())
+				}
+				if isNilConst(x.Y) && exact > 0 {
+					best, why = exact, "non-nil guard at "+e.p.pos(x.Pos())
+				}
+			}
+			if ne && sameOrKey(x.Y, s, key) && isNilConst(x.X) && exact > 0 {
+				best, why = exact, "non-nil guard at "+e.p.pos(x.Pos())
 			}
 		case *ssa.Call:
 			if callee := x.Call.StaticCallee(); callee != nil && c.Pos && callee.String() == "strings.HasPrefix" {
@@ -603,7 +691,32 @@ func (e *e3) lenLowerBound(s ssa.Value, at *ssa.BasicBlock) (int64, string) {
 			}
 		}
 	}
+	if exact > 0 && best >= 1 && exact > best {
+		best, why = exact, fmt.Sprintf("FindStringSubmatch on a constant pattern returns nil or exactly %d elements; empty result excluded (%s)", exact, why)
+	}
 	return best, why
+}
+
+// elemLenContract: s is an element of the result of (*regexp.Regexp).FindAllStringIndex
+// and friends, whose elements always have length >= 2.
+func (e *e3) elemLenContract(s ssa.Value) (int64, bool) {
+	u, ok := s.(*ssa.UnOp)
+	if !ok || u.Op != token.MUL {
+		return 0, false
+	}
+	ia, ok := u.X.(*ssa.IndexAddr)
+	if !ok {
+		return 0, false
+	}
+	c, ok := ia.X.(*ssa.Call)
+	if !ok || c.Call.StaticCallee() == nil {
+		return 0, false
+	}
+	switch c.Call.StaticCallee().String() {
+	case "(*regexp.Regexp).FindAllStringIndex", "(*regexp.Regexp).FindAllIndex", "(*regexp.Regexp).FindAllStringSubmatchIndex":
+		return 2, true
+	}
+	return 0, false
 }
 
 func sameOrKey(a, s ssa.Value, key string) bool {
@@ -677,6 +790,10 @@ func (e *e3) lenCond(x *ssa.BinOp, pos bool, s ssa.Value, key string) int64 {
 		return k + 1
 	case token.GEQ, token.EQL:
 		return k
+	case token.NEQ:
+		if k == 0 {
+			return 1
+		}
 	}
 	return 0
 }
@@ -720,30 +837,91 @@ func (e *e3) classB(rule string, fns []*ssa.Function) {
 	}
 }
 
+// indexClass: "B2" if the index is a directly request-chosen value, "B3" if it
+// is x mod n / the wrap idiom over such a value, "" otherwise.
+func (e *e3) indexClass(idx ssa.Value) string {
+	if e.g.isDirect(idx) {
+		return "B2"
+	}
+	core := stripConv(idx)
+	if bo, ok := core.(*ssa.BinOp); ok {
+		var a ssa.Value
+		if bo.Op == token.REM {
+			a = bo.X
+		} else if wa, _, ok := wrapIdiom(bo); ok {
+			a = wa
+		}
+		if a != nil {
+			a = stripConv(a)
+			if e.g.isDirect(a) {
+				return "B3"
+			}
+			if d, ok := a.(*ssa.BinOp); ok && (d.Op == token.SUB || d.Op == token.ADD) && (e.g.isDirect(d.X) || e.g.isDirect(d.Y)) {
+				return "B3"
+			}
+		}
+	}
+	return ""
+}
+
 func (e *e3) indexSite(rule string, fn *ssa.Function, b *ssa.BasicBlock, in ssa.Instruction, cont, idx ssa.Value) {
 	pos := e.p.pos(instrPos(in))
 	if k, ok := constInt(idx); ok {
 		// B1: constant index on a container whose length is request-controlled
-		if !e.g.isTainted(cont) {
+		if !e.g.isShapeTainted(cont) {
 			return // not an obligation: length fixed by server-side data
 		}
 		construct := fmt.Sprintf("index:%s[%d]", roleKey(cont), k)
+		if why, ok := reviewedException(rule+"1", shortFn(fn), construct); ok {
+			e.r.Exception(rule+"1", shortFn(fn), construct, pos, why)
+			return
+		}
 		lb, why := e.lenLowerBound(cont, b)
 		e.r.Decide(lb > k, rule+"1", shortFn(fn), construct, pos, fmt.Sprintf("len >= %d: %s", lb, why),
-			fmt.Sprintf("constant index %d on a request-derived slice/string whose length is only known to be >= %d", k, lb), e.p.callPath(fn))
+			fmt.Sprintf("constant index %d on a request-derived slice/string whose length is only known to be >= %d [shape: %s]", k, lb, strings.Join(e.g.shapeTrail(cont, 8), " <- ")), e.p.callPath(fn))
 		return
 	}
 	if !e.g.isTainted(idx) {
 		return
 	}
 	construct := "index:" + roleKey(cont) + "[" + roleKey(idx) + "]"
+	if cls := e.indexClass(idx); cls == "" {
+		ok, why := e.indexInBounds(idx, cont, b)
+		if ok {
+			e.r.Discharge(rule+"x", shortFn(fn), construct, pos, "computed index, proven anyway: "+why)
+		} else {
+			e.r.OutOfScope(rule+"x", shortFn(fn), construct, pos, "index is computed from request data by an algorithm (not a directly request-chosen value, not the wrap idiom): outside fault classes B2/B3, not decided")
+		}
+		return
+	}
 	ok, why := e.indexInBounds(idx, cont, b)
 	e.r.Decide(ok, rule+"2", shortFn(fn), construct, pos, why,
 		"request-controlled index not proven within bounds: "+why+" [taint: "+strings.Join(e.g.taintTrail(idx, 6), " <- ")+"]", e.p.callPath(fn))
 }
 
-// indexInBounds proves 0 <= idx < len(cont) at block b.
+// indexInBounds proves 0 <= idx < len(cont) at block b on every feasible path.
 func (e *e3) indexInBounds(idx, cont ssa.Value, b *ssa.BasicBlock) (bool, string) {
+	f := factsOf(b.Parent())
+	why := ""
+	n := 0
+	for _, set := range f.condSets(b) {
+		if !e.rg.feasible(set, 0) {
+			continue
+		}
+		n++
+		ok, w := e.indexInBoundsIn(idx, cont, b, set)
+		if !ok {
+			return false, w
+		}
+		why = w
+	}
+	if n == 0 {
+		return true, "unreachable: no feasible path"
+	}
+	return true, why
+}
+
+func (e *e3) indexInBoundsIn(idx, cont ssa.Value, b *ssa.BasicBlock, conds []cond) (bool, string) {
 	r := e.rg.rangeAt(idx, b, 0)
 	lowOK := r.lo >= 0
 	ckey := exprKey(cont)
@@ -780,8 +958,7 @@ func (e *e3) indexInBounds(idx, cont ssa.Value, b *ssa.BasicBlock) (bool, string
 	upOK := false
 	upWhy := ""
 	ikey := exprKey(idx)
-	f := factsOf(b.Parent())
-	for _, c := range f.dominatingConds(b) {
+	for _, c := range conds {
 		bo, ok := c.V.(*ssa.BinOp)
 		if !ok {
 			continue
@@ -805,7 +982,7 @@ func (e *e3) indexInBounds(idx, cont ssa.Value, b *ssa.BasicBlock) (bool, string
 	}
 	if !upOK {
 		// numeric upper bound below a proven length lower bound
-		lb, why := e.lenLowerBound(cont, b)
+		lb, why := e.lenLowerBoundIn(cont, b, conds)
 		if r.hi != posInf && r.hi < lb {
 			upOK, upWhy = true, fmt.Sprintf("idx <= %d < len >= %d (%s)", r.hi, lb, why)
 		}
@@ -860,7 +1037,7 @@ func (e *e3) sliceSite(rule string, fn *ssa.Function, b *ssa.BasicBlock, x *ssa.
 			continue
 		}
 		if k, ok := constInt(bd.v); ok {
-			if k == 0 || !e.g.isTainted(x.X) {
+			if k == 0 || !e.g.isShapeTainted(x.X) {
 				continue
 			}
 			construct := fmt.Sprintf("slice:%s[%s=%d]", roleKey(x.X), bd.name, k)
@@ -874,9 +1051,18 @@ func (e *e3) sliceSite(rule string, fn *ssa.Function, b *ssa.BasicBlock, x *ssa.
 			continue
 		}
 		construct := "slice:" + roleKey(x.X) + "[" + bd.name + "=" + roleKey(bd.v) + "]"
+		if e.indexClass(bd.v) == "" {
+			ok, why := e.sliceBoundOK(bd.v, x, b)
+			if ok {
+				e.r.Discharge(rule+"x", shortFn(fn), construct, pos, "computed bound, proven anyway: "+why)
+			} else {
+				e.r.OutOfScope(rule+"x", shortFn(fn), construct, pos, "slice bound is computed from request data by an algorithm (not directly request-chosen): outside fault classes B2/B3, not decided")
+			}
+			continue
+		}
 		ok, why := e.sliceBoundOK(bd.v, x, b)
 		e.r.Decide(ok, rule+"2", shortFn(fn), construct, pos, why,
-			"request-controlled slice bound not proven within bounds: "+why, e.p.callPath(fn))
+			"request-controlled slice bound not proven within bounds: "+why+" [direct: "+strings.Join(e.g.directTrail(bd.v, 8), " <- ")+"]", e.p.callPath(fn))
 	}
 }
 
@@ -939,7 +1125,7 @@ func (e *e3) sliceBoundOK(bound ssa.Value, x *ssa.Slice, b *ssa.BasicBlock) (boo
 }
 
 func (e *e3) sliceToArraySite(rule string, fn *ssa.Function, b *ssa.BasicBlock, x *ssa.SliceToArrayPointer) {
-	if !e.g.isTainted(x.X) {
+	if !e.g.isShapeTainted(x.X) {
 		return
 	}
 	pt, ok := x.Type().Underlying().(*types.Pointer)
@@ -955,4 +1141,30 @@ func (e *e3) sliceToArraySite(rule string, fn *ssa.Function, b *ssa.BasicBlock, 
 	e.r.Decide(lb >= arr.Len(), rule+"4", shortFn(fn), construct, e.p.pos(instrPos(x)),
 		fmt.Sprintf("len >= %d: %s", lb, why),
 		fmt.Sprintf("slice to array conversion needs len >= %d, known >= %d", arr.Len(), lb), e.p.callPath(fn))
+}
+
+// ---------------------------------------------------------------- reviewed exceptions
+
+// Reviewed exceptions: obligations that stay undecided without failing. One
+// function, one construct, one reason each; anything else undecided is a violation.
+type exceptionEntry struct {
+	rule, fn, constructPrefix, reason string
+}
+
+var reviewedExceptions = []exceptionEntry{
+	{"E3-C", "app.makeWvttCuePayload", `panic:"cannot write vttc"`,
+		"internal invariant: the writer is sized by Size() of the very box that is encoded into it"},
+	{"E3-C", "patch.diffInternal", `panic:"Should never hit this!"`,
+		"algorithmic invariant of the Myers diff (the snake search always meets within the loop bound); not a request-value guard"},
+	{"E3-B1", "app.shiftTimestamp", "index:call((*regexp.Regexp).FindStringSubmatch)[",
+		"the argument is a substring returned by FindAllStringIndex of the same regexp, so the match succeeds with all groups"},
+}
+
+func reviewedException(rule, fn, construct string) (string, bool) {
+	for _, x := range reviewedExceptions {
+		if x.rule == rule && x.fn == fn && strings.HasPrefix(construct, x.constructPrefix) {
+			return "reviewed exception: " + x.reason, true
+		}
+	}
+	return "", false
 }
